@@ -262,10 +262,7 @@ def classify(rec):
         nm_ = rn.get(jb.info["shared"], jb.info["shared"])
         if not jb.info.get("both") and re.search(r"FROM table_\d+ WHERE [^()]*(?<![.\w\"])\"?%s\"? " % re.escape(nm_), sql + " "):
             return "F48-right-column-read-as-left-behind-star"
-    if rec["verdict"] == "panic" and kinds and kinds[-1] == "unnamedjoin":
-        pn = (rec.get("compile") or {}).get("panic", {})
-        if "called `Option::unwrap()` on a `None` value" in pn.get("msg", "") and "sql/gen_expr.rs" in pn.get("loc", ""):
-            return "F47-unnamed-operand-column-panic"
+    # (F47, the unwrap panic on an unnamed column of a joined sub-pipeline, is repaired by 9c40b5a: nothing excuses a panic)
     if rec["verdict"] in ("names", "rows") and cols_n < frame_n:
         last_select = sql[sql.rfind("SELECT "):]
         sel_list = last_select[:last_select.find(" FROM ")] if " FROM " in last_select else last_select
@@ -346,6 +343,10 @@ def judge_cols(rec):
     if v == "panic":
         return "compiler panicked: %s" % str(rec.get("compile"))[:200]
     if v == "compile-err":
+        reasons = [str(e.get("reason")) for e in rec["compile"].get("err", [])]
+        if rec["program"].steps and rec["program"].steps[-1].kind == "unnamedjoin" \
+                and reasons == ["This table contains unnamed columns that need to be referenced by name"]:
+            return None            # since 9c40b5a: an unnamed column of a sub-pipeline that reaches the result is rejected (the let-table form always was)
         return "well-scoped program rejected: %s" % str([e.get("reason") for e in rec["compile"].get("err", [])])[:300]
     return None
 
@@ -502,18 +503,7 @@ def star_stream(ck, recs, targets=("sql.duckdb", "sql.bigquery", "sql.snowflake"
 
 
 def classify_sstring(case):
-    """F50: the column names extracted from the s-string pass through a BTreeSet: the relation's columns come out in ALPHABETICAL order.
-    Predicate: the emitted SQL runs, has the right column names as a set (all distinct), and they are exactly the sorted list"""
-    got, want = case.get("got") or {}, case.get("want") or {}
-    if "cols" not in got or "cols" not in want:
-        return None
-    g, w = list(got["cols"]), list(want["cols"])
-    m = re.match(r'from s"SELECT (.*?) FROM ', case["prql"])
-    items = [x.strip() for x in m.group(1).split(",")] if m else ["*"]
-    extractable = all(re.fullmatch(r"\w+", it) or re.search(r" AS \w+$", it) for it in items)     # bare identifier or aliased: what the extraction understands
-    g0, w0 = [c for c in g if c != "nn"], [c for c in w if c != "nn"]
-    if extractable and g != w and len(set(w0)) == len(w0) and g0 == sorted(w0) and sorted(g) == sorted(w):
-        return "F50-sstring-columns-sorted"
+    """(F50, the alphabetical column order of an s-string relation, is repaired by 9d5bbbd: no class is accepted in this stream)"""
     return None
 
 
